@@ -415,3 +415,20 @@ M("C19", "log-reader-memoised-by-path", "utils/snapshot.py", "    @staticmethod\
 M("C20", "loop-hook-reads-raising-property", "spa.py", "    def _loop_func(self):\n        if self._is_connected:\n            return", "    def _loop_func(self):\n        if self.is_connected:\n            return", rule="R7")
 M("C08", "connect-treats-false-block-as-some", "async_spa.py", "        if not await self.struct.get(\n            self._protocol,\n            lambda: GeckoStatusBlockProtocolHandler.full_request(\n                self._protocol.get_and_increment_sequence_counter(False),\n                parms=self.sendparms,\n            ),\n        ):",
   "        if (await self.struct.get(\n            self._protocol,\n            lambda: GeckoStatusBlockProtocolHandler.full_request(\n                self._protocol.get_and_increment_sequence_counter(False),\n                parms=self.sendparms,\n            ),\n        )) is None:", rule="I1")
+
+# --------------------------------------------------------------------------- round 11 rules
+M("C03", "previous-block-kept-on-the-object", "driver/spastruct.py", "        previous_block = self._status_block", "        previous_block = self._previous_block = self._status_block", expect="silent")
+M("C03", "previous-block-read-back-from-the-object", "driver/spastruct.py", "            accessor.status_block_changed(offset, segment_len, previous_block)",
+  "            self._previous_block = getattr(self, \"_previous_block\", previous_block) if False else previous_block\n            accessor.status_block_changed(offset, segment_len, self._previous_block)", expect="silent")
+M("C06", "retry-pause-sleeper-cancels-the-shared-future", "config.py", "    await asyncio.wait([ConfigChange], timeout=delay)",
+  "    try:\n        await asyncio.wait_for(ConfigChange, timeout=delay)\n    except asyncio.TimeoutError:\n        pass", rule="R8")
+M("C13", "registry-refuses-a-second-same-named-task", "async_tasks.py", "        task = asyncio.create_task(coroutine, name=f\"{key_}:{name_}\")",
+  "        if any(t.get_name() == f\"{key_}:{name_}\" and not t.done() for t in self._tasks):\n            coroutine.close()\n            return\n        task = asyncio.create_task(coroutine, name=f\"{key_}:{name_}\")", rule="R11")
+M("C10", "registry-refuses-a-second-same-named-task", "async_tasks.py", "        task = asyncio.create_task(coroutine, name=f\"{key_}:{name_}\")",
+  "        if any(t.get_name() == f\"{key_}:{name_}\" and not t.done() for t in self._tasks):\n            coroutine.close()\n            return\n        task = asyncio.create_task(coroutine, name=f\"{key_}:{name_}\")", rule="R3")
+M("C17", "periodic-update-goes-idle-when-the-spa-is-quiet", "automation/async_facade.py", "                    self._ready = True\n",
+  "                    self._ready = True\n                else:\n                    set_config_mode(False)\n", rule="R5")
+M("C18", "pump-modes-edits-the-live-label-list", "automation/pump.py", "        return self._user_demand[\"options\"]",
+  "        modes = self._user_demand[\"options\"]\n        if \"OFF\" in modes:\n            modes.remove(\"OFF\")\n        return modes", rule="R10")
+M("C18", "pump-modes-filters-a-copy-twin", "automation/pump.py", "        return self._user_demand[\"options\"]",
+  "        modes = self._user_demand[\"options\"]\n        return [m for m in modes] if modes is not None else modes", expect="silent")
